@@ -116,6 +116,8 @@ def stmts(n, depth, in_loop, kinds):
             for ba in blocks(a, depth - 1, in_loop, kinds):
                 for bd in blocks(d, depth - 1, in_loop, kinds):
                     out.append(("switch", [ba], bd))
+                    if "switch_default_first" in kinds:
+                        out.append(("switch", [ba], bd, "first"))      # the default clause written before the cases
     return out
 
 
@@ -155,6 +157,8 @@ def features(body):
                 if st[2] is not None:
                     walk(st[2])
                     fs.add("switch_default")
+                    if len(st) > 3 and st[3] == "first":
+                        fs.add("switch_default_first")
     walk(body)
     return fs
 
@@ -304,10 +308,14 @@ class CLike:
                 self.try_stmt(st, ind, lines)
             elif k == "switch":
                 lines.append(pad + "switch (%s) {" % self.var("c"))
+                dfirst = len(st) > 3 and st[3] == "first"
+                if dfirst:
+                    lines.append(pad + "    default:")
+                    self.block(st[2], ind + 2, lines)
                 for i, cb in enumerate(st[1]):
                     lines.append(pad + "    case %d:" % (i + 1))
                     self.block(cb, ind + 2, lines)
-                if st[2] is not None:
+                if st[2] is not None and not dfirst:
                     lines.append(pad + "    default:")
                     self.block(st[2], ind + 2, lines)
                 lines.append(pad + "}")
@@ -515,10 +523,14 @@ class Go(CLike):
                 lines.append(pad + "}")
             elif k == "switch":
                 lines.append(pad + "switch c {")
+                dfirst = len(st) > 3 and st[3] == "first"
+                if dfirst:
+                    lines.append(pad + "default:")
+                    self.block(st[2], ind + 1, lines)
                 for i, cb in enumerate(st[1]):
                     lines.append(pad + "case %d:" % (i + 1))
                     self.block(cb, ind + 1, lines)
-                if st[2] is not None:
+                if st[2] is not None and not dfirst:
                     lines.append(pad + "default:")
                     self.block(st[2], ind + 1, lines)
                 lines.append(pad + "}")
@@ -552,8 +564,8 @@ def render_unit(r, bodies, prefix="m"):
 
 
 def supported(r, body):
-    return features(body) - {"try_else", "try_finally", "switch_default"} <= r.kinds and \
-        not ("try_else" in features(body) and r.name != "python")
+    return features(body) - {"try_else", "try_finally", "switch_default", "switch_default_first"} <= r.kinds and \
+        not ("try_else" in features(body) and r.name != "python") and not ("switch_default_first" in features(body) and r.name == "python")
 
 
 def size_of_body(b):
